@@ -414,7 +414,7 @@ Definition table_ok (ps : list port) : Prop := Forall port_ok ps /\ uniq ps.
 (* a retained event replays: its address is answered by an undoable port of the
    table, it carries that port's own type tag, both values are stored as they are *)
 Definition ev_ok (ps : list port) (U : list str) (e : ev) : Prop :=
-  exists path c idx, eaddr e = 47 :: path /\ mem path U = true /\ In c ps /\
+  exists path c idx, eaddr e = 47 :: path /\ mem path U = true /\ 47 :: path <> undo_path /\ In c ps /\
     addr_match c path = Some idx /\ undoable (pk c) = true /\
     ety e = tag (event_arg (pk c) 0) /\ good c (eold e) /\ good c (enew e).
 
@@ -575,16 +575,16 @@ Proof.
         destruct Hei as ([[Hok _] Ht] & _).
         apply record_events; try assumption.
         { intros h Hh Eh. rewrite Forall_forall in Hev.
-          destruct (Hev h Hh) as (p2 & c2 & i2 & A1 & A2 & A3 & A4 & A5 & A6 & A7 & A8).
+          destruct (Hev h Hh) as (p2 & c2 & i2 & A1 & A2 & A2' & A3 & A4 & A5 & A6 & A7 & A8).
           rewrite Eh in A1. inversion A1; subst p2.
           assert (c2 = c).
           { apply (owner_unique ps c2 c path Hun A3 Hin); unfold owns; [rewrite A4|rewrite Ha]; reflexivity. }
           subst c2.
           exists path, c, idx. cbn [eaddr ety eold enew].
-          split; [reflexivity|]. split; [exact Hm|]. split; [exact Hin|]. split; [exact Ha|].
+          split; [reflexivity|]. split; [exact Hm|]. split; [exact Hloc|]. split; [exact Hin|]. split; [exact Ha|].
           split; [exact Hund|]. split; [reflexivity|]. split; [exact A7|exact Gn]. }
         { exists path, c, idx. cbn [eaddr ety eold enew].
-          split; [reflexivity|]. split; [exact Hm|]. split; [exact Hin|]. split; [exact Ha|].
+          split; [reflexivity|]. split; [exact Hm|]. split; [exact Hloc|]. split; [exact Hin|]. split; [exact Ha|].
           split; [exact Hund|]. split; [reflexivity|]. split; [exact Go|exact Gn]. }
     + (* a toggle or the alias of rParams: no event, nothing the store sees *)
       destruct Hpc as (Hkind & _).
@@ -603,4 +603,205 @@ Proof.
         apply lookup_same_cell; [exact Op|]. unfold cell_value. cbn [fst snd]. rewrite Hund.
         destruct (addr_match c p'); reflexivity. }
       rewrite EL. reflexivity.
+Qed.
+
+(* ---- a seek: the history's messages reach their ports and store their values ---- *)
+Lemma arg_of_event : forall k v, undoable k = true -> arg_of (tag (event_arg k 0)) v = Some (event_arg k v).
+Proof. intros k v H. destruct k; try discriminate; reflexivity. Qed.
+
+Lemma owner_located : forall t path c, In c (ports t) -> owns c path = true ->
+  forallb (fun c' => negb (owns c' path)) (ports t) = true -> False.
+Proof.
+  intros t path c Hin Ho F. rewrite forallb_forall in F. specialize (F c Hin). rewrite Ho in F. discriminate.
+Qed.
+
+Lemma replay_one : forall ps U t path c idx v,
+  table_ok ps -> one_spelling ps U -> ports t = ps -> cells_ok t ->
+  mem path U = true -> 47 :: path <> undo_path -> In c ps -> addr_match c path = Some idx ->
+  undoable (pk c) = true -> good c v ->
+  exists t' outs, dispatch t path [event_arg (pk c) v] = Some (t', outs, 1) /\
+    ports t' = ps /\ cells_ok t' /\
+    forall a, abs U t' a = upd (abs U t) (47 :: path) v a.
+Proof.
+  intros ps U t path c idx v [Hpo Hun] H1s Hps Hcells Hm Hloc Hin Ha Hund Gv.
+  assert (Ho : owns c path = true) by (unfold owns; rewrite Ha; reflexivity).
+  assert (Hu : uniq (ports t)) by (rewrite Hps; exact Hun).
+  destruct (locate t path Hu) as [Hn|t1 c1 st t2 Et Ho1 Hn1 Hn2].
+  { exfalso. apply (owner_located t path c); [rewrite Hps; exact Hin|exact Ho|exact Hn]. }
+  subst t.
+  assert (Hin1 : In c1 ps).
+  { rewrite <- Hps. unfold ports. rewrite map_app. apply in_or_app. right. left. reflexivity. }
+  assert (Ec : c1 = c) by (exact (owner_unique ps c1 c path Hun Hin1 Hin Ho1 Ho)). subst c1.
+  assert (Hpc : port_ok c) by (rewrite Forall_forall in Hpo; exact (Hpo c Hin)).
+  assert (Hcc : contents_ok (c, st)).
+  { unfold cells_ok in Hcells. apply Forall_app in Hcells. destruct Hcells as [_ Hc2]. inversion Hc2; assumption. }
+  pose proof (undoable_kind _ Hund) as Hk.
+  destruct Gv as [Sv Cv].
+  destruct (replay_conf (pk c) (pe c) v Hk Sv) as [Hcf Hsp].
+  rewrite (dispatch_here t1 c st t2 path _ Hn1 Hn2).
+  unfold port_match. rewrite Ha, Hsp.
+  assert (Hca : args_canon (pk c) [event_arg (pk c) v]).
+  { intros a w [Ea|[]] Ew. subst a. destruct (arg_val_tag_event (pk c) v v) as [A _]. rewrite A in Ew.
+    inversion Ew; subst w. exact Cv. }
+  pose proof Hpc as (_ & Henv & _ & _ & Hh & _ & _).
+  pose proof Hcc as [Hlen Hgood]. cbn [fst snd] in Hlen, Hgood. specialize (Hgood Hund).
+  destruct (slot_idx c path idx Hund Hh Ha) as [Es Hlt].
+  assert (Hst : stored_stable (pe c) (pk c) st).
+  { unfold stored_stable. destruct (pk c) eqn:Ek; try discriminate;
+      try (eapply Forall_impl; [|exact Hgood]; intros x [Hx _]; rewrite Ek in Hx; exact Hx).
+    destruct Hgood as (x & n & E & [G _]). rewrite Ek in G. exists x, n. split; assumption. }
+  destruct (step_replay_total (pk c) (pe c) (47 :: path) path st v Hk Henv Hst Sv) as (st' & o & ST).
+  { rewrite Es. unfold cell_len in Hlen, Hlt. destruct (pk c); try discriminate; try exact I;
+      try exact Hlen; rewrite Hlen; exact Hlt. }
+  rewrite ST.
+  destruct (cell_set c st path idx _ st' o init Hpc Hcc Hund Ha Hcf Hca Hloc ST)
+    as (old & new & V1 & V2 & Hc' & Go & Gn & Fr & _ & Rp).
+  assert (En : new = v) by (apply Rp; [reflexivity|split; assumption]). subst new.
+  exists (t1 ++ (c, st') :: t2), o. split; [reflexivity|].
+  split; [rewrite (ports_replace t1 c st st' t2); exact Hps|].
+  split; [exact (cells_replace t1 c st st' t2 Hcells Hc')|].
+  exact (abs_update ps U t1 c st st' t2 path idx v H1s Hin Hm Ha Hn1 V2 Fr).
+Qed.
+
+Definition msg_ok (ps : list port) (U : list str) (m : msg) : Prop :=
+  exists path c idx v, m = SetMsg (47 :: path) (tag (event_arg (pk c) 0)) v /\
+    mem path U = true /\ 47 :: path <> undo_path /\ In c ps /\ addr_match c path = Some idx /\
+    undoable (pk c) = true /\ good c v.
+
+Lemma ev_msgs_ok : forall ps U e, ev_ok ps U e -> msg_ok ps U (set_old e) /\ msg_ok ps U (set_new e).
+Proof.
+  intros ps U e (path & c & idx & A1 & A2 & A2' & A3 & A4 & A5 & A6 & A7 & A8).
+  unfold set_old, set_new. rewrite A1, A6.
+  split; exists path, c, idx; eexists; (split; [reflexivity|]); repeat (split; [assumption|]); assumption.
+Qed.
+
+Lemma apply_msgs_ext : forall ms f g, (forall a, f a = g a) ->
+  forall a, apply_msgs f ms a = apply_msgs g ms a.
+Proof.
+  induction ms as [|m r IH]; intros f g H a; [apply H|].
+  unfold apply_msgs. cbn [fold_left]. apply IH. intro x. destruct m. cbn [apply_msg]. apply upd_ext. exact H.
+Qed.
+
+Lemma replay_all : forall ps U ms t,
+  table_ok ps -> one_spelling ps U -> ports t = ps -> cells_ok t -> Forall (msg_ok ps U) ms ->
+  exists t', replay_msgs t ms = Some (t', Z.of_nat (length ms)) /\ ports t' = ps /\ cells_ok t' /\
+             forall a, abs U t' a = apply_msgs (abs U t) ms a.
+Proof.
+  intros ps U ms. induction ms as [|m r IH]; intros t Ht H1s Hps Hc Hms.
+  - exists t. split; [reflexivity|]. split; [exact Hps|]. split; [exact Hc|]. reflexivity.
+  - apply Forall_cons_iff in Hms. destruct Hms as [Hm Hr].
+    destruct Hm as (path & c & idx & v & Em & A2 & A2' & A3 & A4 & A5 & A6). subst m.
+    destruct (replay_one ps U t path c idx v Ht H1s Hps Hc A2 A2' A3 A4 A5 A6) as (t1 & o & D & P1 & C1 & Ab).
+    destruct (IH t1 Ht H1s P1 C1 Hr) as (t2 & R2 & P2 & C2 & Ab2).
+    exists t2. cbn [replay_msgs]. rewrite (arg_of_event (pk c) v A5), D, R2.
+    split; [f_equal; f_equal; cbn [length]; lia|]. split; [exact P2|]. split; [exact C2|].
+    intro a. rewrite Ab2. unfold apply_msgs at 2. cbn [fold_left apply_msg].
+    apply apply_msgs_ext. exact Ab.
+Qed.
+
+Lemma Forall_skipn : forall (A : Type) (P : A -> Prop) n l, Forall P l -> Forall P (skipn n l).
+Proof.
+  intros A P n. induction n as [|n IH]; intros l H; [exact H|].
+  destruct l; [constructor|]. inversion H; subst. cbn [skipn]. apply IH. assumption.
+Qed.
+
+Lemma in_firstn : forall (A : Type) n (l : list A) x, In x (firstn n l) -> In x l.
+Proof.
+  intros A n. induction n as [|n IH]; intros l x H; [destruct H|].
+  destruct l; [destruct H|]. cbn [firstn] in H. destruct H as [H|H]; [left; exact H|right; apply IH; exact H].
+Qed.
+
+Lemma pseek_inv : forall ps U t s k,
+  table_ok ps -> one_spelling ps U -> pinv ps U (t, s) ->
+  exists t' s' ms, pstep (t, s) (PSeek k) = Some ((t', s'), ms, Z.of_nat (length ms)) /\
+    seek k s = Some (s', ms) /\ pinv ps U (t', s') /\
+    forall a, abs U t' a = apply_msgs (abs U t) ms a.
+Proof.
+  intros ps U t s k Ht H1s (Hps & Hcells & Hei & Hev). cbn [fst snd] in *.
+  pose proof Hei as ([[Hok _] _] & _).
+  destruct (seek_total s k Hok) as (ms & Hs).
+  set (s' := mkH (hist s) (Z.to_nat (Z.of_nat (pos s) + clamp_dist s k)) (clock s)) in *.
+  assert (Hms : Forall (msg_ok ps U) ms).
+  { assert (Ho : Forall (fun e => msg_ok ps U (set_old e) /\ msg_ok ps U (set_new e)) (hist s)).
+    { eapply Forall_impl; [|exact Hev]. intros e He. apply ev_msgs_ok. exact He. }
+    destruct (seek_cases s k s' ms Hok Hs) as [(n & _ & _ & E)|(n & _ & _ & E)]; subst ms.
+    - unfold applied_newest_first. apply Forall_forall. intros m Hm. apply in_map_iff in Hm.
+      destruct Hm as (e & Ee & Hi). subst m.
+      assert (In e (hist s)).
+      { apply in_firstn in Hi. apply in_rev in Hi. apply in_firstn in Hi. exact Hi. }
+      rewrite Forall_forall in Ho. apply (Ho e). assumption.
+    - unfold undone_oldest_first. apply Forall_forall. intros m Hm. apply in_map_iff in Hm.
+      destruct Hm as (e & Ee & Hi). subst m.
+      assert (In e (hist s)).
+      { apply in_firstn in Hi. rewrite <- (firstn_skipn (pos s) (hist s)). apply in_or_app. right. exact Hi. }
+      rewrite Forall_forall in Ho. apply (Ho e). assumption. }
+  destruct (replay_all ps U ms t Ht H1s Hps Hcells Hms) as (t' & R & P' & C' & Ab).
+  exists t', s', ms. cbn [pstep]. rewrite Hs, R.
+  split; [reflexivity|]. split; [reflexivity|]. split; [|exact Ab].
+  split; [exact P'|]. split; [exact C'|]. cbn [fst snd]. split; [|exact Hev].
+  apply (e_inv_ext (apply_msgs (abs U t) ms)); [|exact Ab].
+  exact (e_seek (abs U t) s k s' ms Hei Hs).
+Qed.
+
+(* ---- whole histories ---- *)
+Lemma pstep_inv : forall ps U st o st' ms n,
+  table_ok ps -> one_spelling ps U -> pinv ps U st -> pop_ok ps U o ->
+  pstep st o = Some (st', ms, n) -> pinv ps U st'.
+Proof.
+  intros ps U [t s] o [t' s'] ms n Ht H1s Hi Ho H. destruct o as [path args|k|d].
+  - exact (pset_inv ps U t s path args t' s' ms n Ht H1s Hi Ho H).
+  - destruct (pseek_inv ps U t s k Ht H1s Hi) as (t1 & s1 & ms1 & E & _ & Hi' & _).
+    rewrite E in H. inversion H; subst. exact Hi'.
+  - cbn [pstep] in H. inversion H; subst t' s' ms n. destruct Hi as (Hps & Hc & Hei & Hev). cbn [fst snd] in *.
+    split; [exact Hps|]. split; [exact Hc|]. split; [|exact Hev]. cbn [fst snd].
+    exact (estep_inv (abs U t, s) (ETick d) _ [] Hei Ho eq_refl).
+Qed.
+
+Lemma prun_inv : forall ps U ops st st',
+  table_ok ps -> one_spelling ps U -> pinv ps U st -> Forall (pop_ok ps U) ops ->
+  prun ops st = Some st' -> pinv ps U st'.
+Proof.
+  intros ps U ops. induction ops as [|o r IH]; intros st st' Ht H1s Hi Hops H.
+  - cbn in H. inversion H; subst. exact Hi.
+  - inversion Hops as [|? ? Ho Hr]; subst. cbn [prun] in H.
+    destruct (pstep st o) as [[[st1 ms] n]|] eqn:E; [|discriminate].
+    apply (IH st1 st' Ht H1s); [|exact Hr|exact H].
+    exact (pstep_inv ps U st o st1 ms n Ht H1s Hi Ho E).
+Qed.
+
+Lemma pinv_init : forall ps U t0, ports t0 = ps -> cells_ok t0 -> pinv ps U (t0, init).
+Proof.
+  intros ps U t0 Hp Hc. split; [exact Hp|]. split; [exact Hc|]. split; [apply e_inv_init|constructor].
+Qed.
+
+(* the end-to-end theorem on the fields of the ports: after any history of set
+   messages, seeks and clock steps, undoing everything retained delivers every
+   undo message to a port and returns every parameter to the value it had
+   before its oldest retained change; redoing everything returns the latest values *)
+Lemma ports_undo_redo : forall ps U t0 ops t s,
+  table_ok ps -> one_spelling ps U -> ports t0 = ps -> cells_ok t0 ->
+  Forall (pop_ok ps U) ops -> prun ops (t0, init) = Some (t, s) ->
+  (exists t' s' ms,
+     pstep (t, s) (PSeek (- Z.of_nat (pos s))) = Some ((t', s'), ms, Z.of_nat (length ms)) /\
+     pos s' = 0%nat /\ cells_ok t' /\
+     forall a, abs U t' a = value_before_oldest (hist s) a (abs U t a)) /\
+  (exists t' s' ms,
+     pstep (t, s) (PSeek (Z.of_nat (length (hist s) - pos s))) = Some ((t', s'), ms, Z.of_nat (length ms)) /\
+     pos s' = length (hist s) /\ cells_ok t' /\
+     forall a, abs U t' a = value_latest (hist s) a (abs U t a)).
+Proof.
+  intros ps U t0 ops t s Ht H1s Hp Hc Hops H.
+  pose proof (prun_inv ps U ops (t0, init) (t, s) Ht H1s (pinv_init ps U t0 Hp Hc) Hops H) as Hi.
+  pose proof Hi as (_ & _ & Hei & _). cbn [fst snd] in Hei.
+  split.
+  - destruct (pseek_inv ps U t s (- Z.of_nat (pos s)) Ht H1s Hi) as (t' & s' & ms & E & Hs & (_ & C' & _ & _) & Ab).
+    destruct (e_undo_all (abs U t) s Hei) as (f' & s1 & ms1 & Ee & Hp0 & _ & Hv).
+    cbn [estep] in Ee. rewrite Hs in Ee. inversion Ee; subst f' s1 ms1.
+    exists t', s', ms. split; [exact E|]. split; [exact Hp0|]. split; [exact C'|].
+    intro a. rewrite Ab. apply Hv.
+  - destruct (pseek_inv ps U t s (Z.of_nat (length (hist s) - pos s)) Ht H1s Hi) as (t' & s' & ms & E & Hs & (_ & C' & _ & _) & Ab).
+    destruct (e_redo_all (abs U t) s Hei) as (f' & s1 & ms1 & Ee & Hp0 & _ & Hv).
+    cbn [estep] in Ee. rewrite Hs in Ee. inversion Ee; subst f' s1 ms1.
+    exists t', s', ms. split; [exact E|]. split; [exact Hp0|]. split; [exact C'|].
+    intro a. rewrite Ab. apply Hv.
 Qed.
